@@ -135,10 +135,15 @@ func c05Oracle(sp *Spec, x *X, res *mcrt.Result) (string, string) {
 		if !ok {
 			return "notifier-count", fmt.Sprintf("shutdown notifier delivered %d values", len(x.Notified))
 		}
-		if sp.Pty {
-			// frames may be clipped by the terminal height: every bar that cannot have been removed is still listed
+		faulty := false
+		for _, bs := range sp.Bars {
+			faulty = faulty || bs.FillErrAt > 0
+		}
+		if sp.Pty || faulty {
+			// frames may be clipped by the terminal height, or the last cycle abandoned after a filler's error: every bar
+			// that cannot have been removed (the failing bar aside) is still listed
 			for b := range sp.Bars {
-				if _, _, added := addRet(x, b); !added || removable(sp, x, b) {
+				if _, _, added := addRet(x, b); !added || removable(sp, x, b) || sp.Bars[b].FillErrAt > 0 {
 					continue
 				}
 				found := false
@@ -264,6 +269,29 @@ func c05Programs(tier string) []*Spec {
 			ends := []ending{endings[0], endings[3], endings[4]}
 			for _, sp := range endingPrograms("c05", rf, -1, 3, ends, 5) {
 				sp.Notifier = true
+				out = append(out, sp)
+			}
+		}
+	}
+	// a filler fails in some cycle: the cycle is abandoned, but no healthy bar is lost on the way (the notifier lists
+	// every one of them), whichever bar fails and wherever the others are in that cycle
+	for _, rf := range []string{"manual", "auto"} {
+		for fb := 0; fb < 3; fb++ {
+			for _, at := range []int{1, 2} {
+				sp := &Spec{Name: fmt.Sprintf("c05-filler-error-b%d@%d", fb, at), Refresh: rf, Q: -1, Notifier: true}
+				for i := 0; i < 3; i++ {
+					bs := BarSpec{Total: 5}
+					if i == fb {
+						bs.FillErrAt = at
+					}
+					sp.Bars = append(sp.Bars, bs)
+					sp.Main = append(sp.Main, Op{K: "add", B: i})
+				}
+				if rf == "manual" {
+					sp.Clients = [][]Op{{{K: "refresh"}, {K: "incr", B: 0, N: 1}, {K: "refresh"}, {K: "refresh"}}}
+				} else {
+					sp.Clients = [][]Op{{{K: "incr", B: 0, N: 1}, {K: "sleep", N: 250}}}
+				}
 				out = append(out, sp)
 			}
 		}
